@@ -5,8 +5,8 @@
    while_unroll_sound.  Proofs by computation. *)
 From Coq Require Import ZArith List Bool String.
 From FpyV Require Import Num.RealFloat Num.Float Num.CtxDef Lang.Syntax Lang.Values Lang.Sem Lang.NumInst
-  Lang.Transforms.Common Lang.Transforms.WhileUnroll Lang.Transforms.IterElim Lang.Transforms.ReduceFusion
-  Lang.Transforms.NumInt.
+  Lang.Transforms.Common Lang.Transforms.WhileUnroll Lang.Transforms.ForUnroll Lang.Transforms.Frame
+  Lang.Transforms.IterElim Lang.Transforms.ReduceFusion Lang.Transforms.NumInt.
 Import ListNotations.
 Open Scope string_scope.
 Open Scope Z_scope.
@@ -145,3 +145,28 @@ Example while_unroll_sound_nonvacuous :
   run c08_numops (prog_update P_while "f" (while_unroll SelAll 2)) 100 "f" [CList [nz 1; nz 2; nz 4]] None
     = ROk (CTuple [nz 3; nz 2]).
 Proof. split; vm_compute; reflexivity. Qed.
+
+(* ---------------------------------------------------------------- non-vacuity of for_unroll_peel_sound_partial *)
+(* acc = 0; for x in xs: (if x > 2: return (acc, xs)); xs[0] = acc; acc = acc + x;  return (acc, xs)
+   -- in-place mutation of the iterated list, an early return, an outer variable reassigned *)
+Definition F_for : func :=
+  Func ["xs"] (Some (CMPFloat 3 RNE (Some 0) sp_default))
+    [SAssign (PVar "acc") (int_lit 0);
+     SFor (PVar "x") (EVar "xs")
+       [SIf1 (ECompare [CGt] [EVar "x"; int_lit 2]) [SReturn (ETuple [EVar "acc"; EVar "xs"])];
+        SIndexAssign "xs" [int_lit 0] (EVar "acc");
+        SAssign (PVar "acc") (EOp2 OAdd (EVar "acc") (EVar "x"))];
+     SReturn (ETuple [EVar "acc"; EVar "xs"])].
+Definition P_for : program := [("f", F_for)].
+
+Example for_unroll_nonvacuous :
+  f_body F_for = ([SAssign (PVar "acc") (int_lit 0)] ++ SFor (PVar "x") (EVar "xs")
+       [SIf1 (ECompare [CGt] [EVar "x"; int_lit 2]) [SReturn (ETuple [EVar "acc"; EVar "xs"])];
+        SIndexAssign "xs" [int_lit 0] (EVar "acc");
+        SAssign (PVar "acc") (EOp2 OAdd (EVar "acc") (EVar "x"))] :: [SReturn (ETuple [EVar "acc"; EVar "xs"])])%list /\
+  ok_block (map (gen_name (max_len (func_names F_for))) (seq 0 (2 + 6))) (f_body F_for) = true /\
+  run c08_numops P_for 100 "f" [CList [nz 1; nz 2; nz 1; nz 3; nz 1]] None
+    = ROk (CTuple [nz 4; CList [nz 3; nz 2; nz 1; nz 3; nz 1]]) /\
+  run c08_numops (prog_update P_for "f" (for_unroll (SelIdx 0) 3 false [])) 100 "f" [CList [nz 1; nz 2; nz 1; nz 3; nz 1]] None
+    = ROk (CTuple [nz 4; CList [nz 3; nz 2; nz 1; nz 3; nz 1]]).
+Proof. repeat split; vm_compute; reflexivity. Qed.
